@@ -8,9 +8,9 @@ Model: `GS.RespLife`.  `PeerState(p)` of the response manager reports the table 
 -- FULL STATEMENT (C23.agree) — STATED, NOT PROVED in Lean.  It is checked on every run by the
 -- correspondence stream `peerstate` (model and real code agree on PeerState at every barrier) and by the
 -- independent oracle (Diagnostics() empty, state/queue agreement, final Stats):
---   theorem agree : ReachableFresh limit s → quiescent s = true → agrees s = true
+--   theorem agree : ReachableFresh c s → quiescent s = true → agrees s = true
 -- FULL STATEMENT (C23.final), likewise:
---   theorem final : ReachableFresh limit s → quiescent s = true → s.table = [] →
+--   theorem final : ReachableFresh c s → quiescent s = true → s.table = [] →
 --     (∀ q ∈ s.queues, q.pending = [] ∧ q.active = []) ∧ (∀ m ∈ s.mqs, idle m → m.allocated = 0)
 -- The invariant needed couples request states, task-queue sets, worker phases, mailbox contents and
 -- the terminal statuses queued in message builders; only its registry part (`PInv`) is proved so far.
@@ -53,7 +53,7 @@ def agrees (s : State) : Bool :=
 
 /-- with fresh ids the table holds at most one entry per request id (so `RequestStates`, a map keyed
     by id, reports every entry), and every reported request holds its connection protection -/
-theorem reported_states_well_defined {limit : Nat} {s : State} (h : ReachableFresh limit s) :
+theorem reported_states_well_defined {c : Cfg} {s : State} (h : ReachableFresh c s) :
     (s.table.map (·.id)).Nodup ∧ ∀ r ∈ s.table, (r.peer, r.id) ∈ s.prot := by
   have hinv := pinv_reachable h
   refine ⟨by simpa [pi, keys, List.map_map, Function.comp_def] using hinv.nodupIds, ?_⟩
@@ -70,8 +70,8 @@ def dupRunningScript : List Action :=
 /-- **C23.agree_counterexample** (ids not fresh): a reachable quiescent state in which the reported
     state (Queued) disagrees with the task queue (topic active, not pending). -/
 theorem agree_counterexample_dup :
-    ∃ s, Reachable 0 s ∧ quiescent s = true ∧ agrees s = false :=
-  ⟨run (init 0) dupRunningScript, reachable_run Reachable.init _, by decide, by decide⟩
+    ∃ s, Reachable {} s ∧ quiescent s = true ∧ agrees s = false :=
+  ⟨run (init {}) dupRunningScript, reachable_run Reachable.init _, by decide, by decide⟩
 
 /-- a full lifecycle with pause, unpause, cancel of a second request, acknowledgements -/
 def lifecycle : List Action :=
@@ -89,13 +89,13 @@ def lifecycle : List Action :=
     lifecycle that is quiescent -/
 theorem agree_on_lifecycle :
     (List.range (lifecycle.length + 1)).all (fun n =>
-      let s := run (init 0) (lifecycle.take n)
+      let s := run (init {}) (lifecycle.take n)
       !quiescent s || agrees s) = true := by decide
 
 /-- TEST: at the end everything is retired, nothing is pending, active or allocated -/
 -- TMP
 theorem final_on_lifecycle :
-    let s := run (init 0) lifecycle
+    let s := run (init {}) lifecycle
     quiescent s = true ∧ s.table = [] ∧ s.queues.all (fun q => q.pending.isEmpty && q.active.isEmpty) = true ∧
       s.mqs.all (fun m => m.allocated == 0) = true := by decide
 
